@@ -377,6 +377,14 @@ class _V1:
         self.block(self.f.node.body)
         # same object stored in two view cells
         byname = {}
+        seen_st = set()
+        uniq = []
+        for st, tgt, val in self.sinks:
+            if (id(st), tgt) in seen_st:
+                continue
+            seen_st.add((id(st), tgt))
+            uniq.append((st, tgt, val))
+        self.sinks = uniq
         for st, tgt, val in self.sinks:
             if isinstance(val, ast.Name):
                 byname.setdefault(val.id, []).append((st, tgt))
@@ -1042,6 +1050,11 @@ def rule_rf1(ctx):
                     instance=inst)
         return
     ctext = dotted(cond.test)
+    if isinstance(cond.test, ast.Name):
+        for n in ast.walk(f.node):
+            if isinstance(n, ast.Assign) and len(n.targets) == 1 \
+                    and dotted(n.targets[0]) == cond.test.id:
+                ctext = dotted(n.value)
     both = ("_out_dict" in ctext or "neighbors_out" in ctext) and (
         "_in_dict" in ctext or "neighbors_in" in ctext)
     if not both:
@@ -1065,6 +1078,37 @@ def rule_rf1(ctx):
     fors = [l for l in loops if isinstance(l, ast.For)]
     # shape A: flag-controlled rescan over a snapshot of all vertices
     flag = w.test.id if isinstance(w.test, ast.Name) else None
+    if fors and not flag:
+        # `while True:` ... `if <progress variable test>: break`
+        progress = set()
+        for s_ in cond.body:
+            for n in ast.walk(s_):
+                if isinstance(n, (ast.Assign, ast.AugAssign)):
+                    t = n.targets[0] if isinstance(n, ast.Assign) else n.target
+                    if isinstance(t, ast.Name):
+                        progress.add(t.id)
+        breaks_ok = False
+        for n in ast.walk(w):
+            if isinstance(n, ast.If) and any(isinstance(x, ast.Break)
+                                             for x in n.body):
+                names = {x.id for x in ast.walk(n.test)
+                         if isinstance(x, ast.Name)}
+                if names & progress:
+                    breaks_ok = True
+        it = fors[0].iter
+        st = dotted(it)
+        if isinstance(it, ast.Name):
+            for n in ast.walk(w):
+                if isinstance(n, ast.Assign) and dotted(n.targets[0]) == it.id:
+                    st = dotted(n.value)
+        snap_ok = ("_out_dict" in st or "vertices()" in st) and \
+            st.startswith(("list(", "tuple(", "sorted("))
+        if breaks_ok and snap_ok:
+            r.ok("RF1", inst + ":fixpoint", loc(f, w), "",
+                 "rescans a snapshot of all vertices; the loop is left only "
+                 "when a variable updated at each deletion says a pass "
+                 "deleted nothing")
+            return
     if flag and fors:
         snap_ok = False
         it = fors[0].iter
